@@ -69,6 +69,9 @@ func verif_assume(b bool) {}
 // verif_rangeidx stands for the number of completed iterations of the enclosing range loop (contracts only).
 func verif_rangeidx() int { return 0 }
 
+// verif_arg stands for the i-th argument of the call a call-site assertion is attached to (contracts only).
+func verif_arg[T any](i int) T { var z T; return z }
+
 // ---- abstract view of an on-heap table index
 
 // verif_pfx is the 8-byte address prefix stored in prefix tuple |k|.
@@ -250,10 +253,6 @@ func verif_orders_ok(ps prefixIndexSlice) bool {
 func verif_x_sort_Sort(data sort.Interface) { sort.Sort(data) }
 
 func verif_x_Writer_Write(w io.Writer, p []byte) (n int, err error) { return w.Write(p) }
-
-func verif_x_be_PutUint32(bo binary.ByteOrder, b []byte, v uint32) { bo.PutUint32(b, v) }
-
-func verif_x_be_PutUint64(bo binary.ByteOrder, b []byte, v uint64) { bo.PutUint64(b, v) }
 
 func verif_x_lockKeepers(ctx context.Context) (keep hash.HashSet, release func() error, err error) {
 	return nil, nil, nil
